@@ -188,7 +188,14 @@ def check(run):
                           'tcp::socket::incoming_packet puts a packet on the wire with forward_packet directly and it is not a freshly built ACK: payload (a retransmission) bypasses send_packet, so it is neither captured nor counted in the sequence numbers',
                           'only a locally built ACK (never captured) is forwarded directly')
         else:
-            run.violation('R3', 'tcp-wire', 'forward_packet <- ' + w, fn.loc(c), '%s transmits without going through send_packet (no capture record, no sequence accounting)' % w)
+            # handshake-level control (SYN, SYN+ACK and the resets that end a connect that never came into being) is not
+            # part of the captured stream: a locally built error packet that names its channel may leave directly
+            import p07 as _p07
+            for fn2, c2 in lst:
+                bp = _p07.built_packet(fn2, c2) or {}
+                run.check('error' in bp.get('type', '') and 'channel' in bp and not bp.get('buffer'), 'R3', 'tcp-wire', 'forward_packet <- ' + w, fn2.loc(c2),
+                          '%s transmits without going through send_packet (no capture record, no sequence accounting) and the packet is not a handshake-level reset (type error, channel set, no payload)' % w,
+                          'a handshake-level reset, never captured')
     run.touch(sp)
     logs = [c for c in sp.calls() if q.callee_name(c) == PC + '::log_tcp']
     fw = [c for c in sp.calls() if q.callee_name(c) == 'sim::forward_packet']
